@@ -6,6 +6,17 @@
 // interceptor on the call path x handler outcome x carrier x form of decoration.
 // The oracle reads an ordered event log written by instrumented interceptors and
 // handlers.
+//
+// Further dimensions, swept around base cases (see the evidence "rule"):
+//   - sharing of one decorated description between carriers (Seq),
+//   - the RPC's context dying (Ctx), client-side stream flags (CF),
+//   - PASS-THROUGH: what an onward-calling interceptor hands to the next layer (the same
+//     request / a modified clone, the same context / a derived one, the same ServerStream /
+//     a wrapper) and what it returns (the same result / another response / another error),
+//     checked at the very next layer and at the handler (TM/D1M/D2M, bRewriteErr),
+//   - OVERLAP: two RPCs whose interceptor activity overlaps on one decorated carrier, one
+//     interceptor calling onward late, from another goroutine, before or after it has
+//     returned itself (overlap.go).
 package main
 
 import (
@@ -43,9 +54,39 @@ const (
 	bShort
 	bFail
 	bRewrite
+	// bRewriteErr replaces the ERROR: a unary interceptor returns (nil, Aborted "rwerr:<who>") whatever
+	// came back; a stream interceptor swallows whatever error came back and returns nil.
+	bRewriteErr
 )
 
-var behNames = []string{"nil", "pass", "short", "fail", "rewrite"}
+var behNames = []string{"nil", "pass", "short", "fail", "rewrite", "rewrite-err"}
+
+// modifiers of an onward-calling behaviour: what is handed to the next layer
+const (
+	mReq = 1 // unary: a modified clone of the request (value + "+<who>"); stream: a wrapper around the ServerStream
+	mCtx = 2 // unary: a context derived from the one received (carries a value keyed by <who>)
+)
+
+func onwardBeh(b int) bool { return b == bPass || b == bRewrite || b == bRewriteErr }
+
+// behStr: a behaviour with its modifier, e.g. "pass+req+ctx" (unary) or "rewrite+wrap" (stream)
+func behStr(kind string, b, m int) string {
+	s := behNames[b]
+	if kind == "stream" && b == bRewriteErr {
+		s = "swallow-err"
+	}
+	if m&mReq != 0 {
+		if kind == "stream" {
+			s += "+wrap"
+		} else {
+			s += "+req"
+		}
+	}
+	if m&mCtx != 0 {
+		s += "+ctx"
+	}
+	return s
+}
 
 type caseT struct {
 	Carrier string `json:"carrier"` // direct | inproc | http
@@ -71,6 +112,12 @@ type caseT struct {
 	Ctx int `json:"ctx,omitempty"`
 	// CF: 0 = the client opens streams with the registered flags; 1..4 = with flags CF-1 (bit0 client, bit1 server)
 	CF int `json:"cf,omitempty"`
+	// TM, D1M, D2M: what the onward-calling interceptor hands to the next layer (bit mReq, bit mCtx; see above)
+	TM  int `json:"tm,omitempty"`
+	D1M int `json:"d1m,omitempty"`
+	D2M int `json:"d2m,omitempty"`
+	// Ov, when set, makes this an OVERLAP case (overlap.go)
+	Ov *ovT `json:"ov,omitempty"`
 }
 
 var seqNames = []string{"nil", "A", "B"}
@@ -87,7 +134,7 @@ func (c caseT) chainStr() string {
 	if len(c.Seq) > 0 {
 		return fmt.Sprintf("seq=%s,D1=%s,D2=%s", c.seqStr(), behNames[c.D1], behNames[c.D2])
 	}
-	return fmt.Sprintf("T=%s,D1=%s,D2=%s", behNames[c.T], behNames[c.D1], behNames[c.D2])
+	return fmt.Sprintf("T=%s,D1=%s,D2=%s", behStr(c.Kind, c.T, c.TM), behStr(c.Kind, c.D1, c.D1M), behStr(c.Kind, c.D2, c.D2M))
 }
 
 func (c caseT) String() string {
@@ -97,6 +144,9 @@ func (c caseT) String() string {
 	}
 	if c.CF != 0 {
 		s += fmt.Sprintf(" client-flags=%d", c.CF-1)
+	}
+	if c.Ov != nil {
+		s += " " + c.Ov.String()
 	}
 	return s
 }
@@ -109,14 +159,50 @@ type entry struct {
 	fullMethod string
 	cs, ss     bool
 	srv        interface{}
+	ctx        context.Context // the context received (stream: the stream's context at entry)
 	req        interface{}
 	reqValue   string
 	stream     grpc.ServerStream
 	called     bool
+	reqOut     interface{}       // unary interceptor: the request handed onward
+	streamOut  grpc.ServerStream // stream interceptor: the stream handed onward
 	gotResp    interface{}
 	gotErr     error
 	retResp    interface{}
 	retErr     error
+	// what the info object says when the onward call has come back and the interceptor is about to
+	// return (interceptors that log or meter read it then); not recorded when the interceptor itself has already returned
+	after            bool
+	fullMethodAfter  string
+	csAfter, ssAfter bool
+	rpc              int         // overlap cases: the RPC this event belongs to (read from the request / the stream's metadata)
+	panicked         interface{} // a panic recovered around the onward call made from another goroutine
+}
+
+// ctxKey: the key under which interceptor <who> stores "ctx:<who>" in the context it hands onward
+type ctxKey struct{ who string }
+
+// wrapStream is what a stream interceptor with modifier mReq hands onward: a derived context,
+// and every message passing through it in either direction gets the suffix "+<who>".
+type wrapStream struct {
+	grpc.ServerStream
+	who string
+	ctx context.Context
+}
+
+func (w *wrapStream) Context() context.Context { return w.ctx }
+func (w *wrapStream) RecvMsg(m interface{}) error {
+	err := w.ServerStream.RecvMsg(m)
+	if sv, ok := m.(*wrapperspb.StringValue); ok && err == nil {
+		sv.Value += "+" + w.who
+	}
+	return err
+}
+func (w *wrapStream) SendMsg(m interface{}) error {
+	if sv, ok := m.(*wrapperspb.StringValue); ok {
+		return w.ServerStream.SendMsg(wrapperspb.String(sv.Value + "+" + w.who))
+	}
+	return w.ServerStream.SendMsg(m)
 }
 
 type clog struct {
@@ -125,6 +211,8 @@ type clog struct {
 	// hooks of the current call (set by the case runner)
 	beforeOnward func(who string)
 	onReturn     func(who string)
+	// overlap cases: which interceptor calls onward late, and the gates of the RPCs in flight
+	ov *ovState
 }
 
 func (l *clog) onward(who string) {
@@ -154,54 +242,95 @@ func (l *clog) take() []*entry {
 	return es
 }
 
-func mkUnary(l *clog, who string, b int) grpc.UnaryServerInterceptor {
+func mkUnary(l *clog, who string, b, mod int) grpc.UnaryServerInterceptor {
 	if b == bNil {
 		return nil
 	}
 	return func(ctx context.Context, req interface{}, info *grpc.UnaryServerInfo, handler grpc.UnaryHandler) (interface{}, error) {
-		e := l.add(&entry{who: who, fullMethod: info.FullMethod, req: req, srv: info.Server})
+		e := l.add(&entry{who: who, fullMethod: info.FullMethod, ctx: ctx, req: req, srv: info.Server})
+		if l.ov != nil {
+			e.rpc = rpcOfReq(req)
+		}
 		switch b {
-		case bPass:
-			e.called = true
-			l.onward(who)
-			e.gotResp, e.gotErr = handler(ctx, req)
-			e.retResp, e.retErr = e.gotResp, e.gotErr
 		case bShort:
 			e.retResp = wrapperspb.String("short:" + who)
 		case bFail:
 			e.retErr = status.Error(codes.PermissionDenied, "fail:"+who)
-		case bRewrite:
+		default: // the onward-calling behaviours
 			e.called = true
+			octx, oreq := ctx, req
+			if sv, ok := req.(*wrapperspb.StringValue); ok && mod&mReq != 0 {
+				oreq = wrapperspb.String(sv.Value + "+" + who) // the received request itself stays untouched
+			}
+			if mod&mCtx != 0 {
+				octx = context.WithValue(ctx, ctxKey{who}, "ctx:"+who)
+			}
+			e.reqOut = oreq
 			l.onward(who)
-			e.gotResp, e.gotErr = handler(ctx, req)
-			e.retResp = wrapperspb.String("rw:" + who)
+			if g := l.gateFor(who, e.rpc); g != nil {
+				if late := g.run(l.ov.mode, e, func() { e.gotResp, e.gotErr = handler(octx, oreq) }); late {
+					e.retErr = status.Error(codes.DeadlineExceeded, "late:"+who)
+					l.returning(who)
+					return nil, e.retErr
+				}
+			} else {
+				e.gotResp, e.gotErr = handler(octx, oreq)
+			}
+			e.after, e.fullMethodAfter = true, info.FullMethod
+			switch b {
+			case bPass:
+				e.retResp, e.retErr = e.gotResp, e.gotErr
+			case bRewrite:
+				e.retResp = wrapperspb.String("rw:" + who)
+			case bRewriteErr:
+				e.retErr = status.Error(codes.Aborted, "rwerr:"+who)
+			}
 		}
 		l.returning(who)
 		return e.retResp, e.retErr
 	}
 }
 
-func mkStream(l *clog, who string, b int) grpc.StreamServerInterceptor {
+func mkStream(l *clog, who string, b, mod int) grpc.StreamServerInterceptor {
 	if b == bNil {
 		return nil
 	}
 	return func(srv interface{}, ss grpc.ServerStream, info *grpc.StreamServerInfo, handler grpc.StreamHandler) error {
-		e := l.add(&entry{who: who, fullMethod: info.FullMethod, cs: info.IsClientStream, ss: info.IsServerStream, srv: srv, stream: ss})
+		e := l.add(&entry{who: who, fullMethod: info.FullMethod, cs: info.IsClientStream, ss: info.IsServerStream, srv: srv, stream: ss, ctx: ss.Context()})
+		if l.ov != nil {
+			e.rpc = rpcOfCtx(e.ctx)
+		}
 		switch b {
-		case bPass:
-			e.called = true
-			l.onward(who)
-			e.gotErr = handler(srv, ss)
-			e.retErr = e.gotErr
 		case bShort:
 			ss.SendMsg(wrapperspb.String("short:" + who))
 		case bFail:
 			e.retErr = status.Error(codes.PermissionDenied, "fail:"+who)
-		case bRewrite:
+		default: // the onward-calling behaviours
 			e.called = true
+			oss := ss
+			if mod&mReq != 0 {
+				oss = &wrapStream{ServerStream: ss, who: who, ctx: context.WithValue(e.ctx, ctxKey{who}, "ctx:"+who)}
+			}
+			e.streamOut = oss
 			l.onward(who)
-			e.gotErr = handler(srv, ss)
-			e.retErr = status.Error(codes.Aborted, "rw:"+who)
+			if g := l.gateFor(who, e.rpc); g != nil {
+				if late := g.run(l.ov.mode, e, func() { e.gotErr = handler(srv, oss) }); late {
+					e.retErr = status.Error(codes.DeadlineExceeded, "late:"+who)
+					l.returning(who)
+					return e.retErr
+				}
+			} else {
+				e.gotErr = handler(srv, oss)
+			}
+			e.after, e.fullMethodAfter, e.csAfter, e.ssAfter = true, info.FullMethod, info.IsClientStream, info.IsServerStream
+			switch b {
+			case bPass:
+				e.retErr = e.gotErr
+			case bRewrite:
+				e.retErr = status.Error(codes.Aborted, "rw:"+who)
+			case bRewriteErr:
+				e.retErr = nil
+			}
 		}
 		l.returning(who)
 		return e.retErr
@@ -225,9 +354,12 @@ func makeDesc(c caseT, l *clog) *grpc.ServiceDesc {
 	for i := 0; i < c.U; i++ {
 		name := unaryName(i)
 		app := func(srv interface{}, ctx context.Context, req interface{}) (interface{}, error) {
-			e := l.add(&entry{who: "H", method: name, srv: srv, req: req})
+			e := l.add(&entry{who: "H", method: name, srv: srv, req: req, ctx: ctx})
 			if sv, ok := req.(*wrapperspb.StringValue); ok {
 				e.reqValue = sv.Value
+			}
+			if l.ov != nil {
+				e.rpc = rpcOfReq(req)
 			}
 			if c.HErr {
 				e.retErr = status.Error(codes.NotFound, "handler error")
@@ -252,7 +384,10 @@ func makeDesc(c caseT, l *clog) *grpc.ServiceDesc {
 	for i, fl := range c.Flags {
 		name := streamName(i)
 		d.Streams = append(d.Streams, grpc.StreamDesc{StreamName: name, ClientStreams: fl&1 != 0, ServerStreams: fl&2 != 0, Handler: func(srv interface{}, stream grpc.ServerStream) error {
-			e := l.add(&entry{who: "H", method: name, srv: srv, stream: stream})
+			e := l.add(&entry{who: "H", method: name, srv: srv, stream: stream, ctx: stream.Context()})
+			if l.ov != nil {
+				e.rpc = rpcOfCtx(e.ctx)
+			}
 			var in wrapperspb.StringValue
 			if err := stream.RecvMsg(&in); err == nil {
 				e.reqValue = in.Value
@@ -273,8 +408,15 @@ func makeDesc(c caseT, l *clog) *grpc.ServiceDesc {
 // fakeStream is the server stream of the "direct" carrier.
 type fakeStream struct {
 	ctx  context.Context
+	mu   sync.Mutex // (overlap cases: a handler may run in another goroutine after the call has returned)
 	in   []*wrapperspb.StringValue
 	sent []string
+}
+
+func (f *fakeStream) snapshot() []string {
+	f.mu.Lock()
+	defer f.mu.Unlock()
+	return append([]string(nil), f.sent...)
 }
 
 func (f *fakeStream) SetHeader(metadata.MD) error  { return nil }
@@ -282,10 +424,14 @@ func (f *fakeStream) SendHeader(metadata.MD) error { return nil }
 func (f *fakeStream) SetTrailer(metadata.MD)       {}
 func (f *fakeStream) Context() context.Context     { return f.ctx }
 func (f *fakeStream) SendMsg(m interface{}) error {
+	f.mu.Lock()
+	defer f.mu.Unlock()
 	f.sent = append(f.sent, m.(*wrapperspb.StringValue).Value)
 	return nil
 }
 func (f *fakeStream) RecvMsg(m interface{}) error {
+	f.mu.Lock()
+	defer f.mu.Unlock()
 	if len(f.in) == 0 {
 		return io.EOF
 	}
@@ -358,8 +504,10 @@ type problem struct {
 }
 
 type chainEl struct {
-	who string
-	beh int
+	who  string
+	beh  int
+	mod  int
+	late bool // overlap cases: this interceptor returns DeadlineExceeded "late:<who>" and calls onward afterwards
 }
 
 func (c caseT) chain() []chainEl { return c.chainWith("T", c.T) }
@@ -367,12 +515,23 @@ func (c caseT) chain() []chainEl { return c.chainWith("T", c.T) }
 // chainWith: the interceptors on the path of a call whose transport-level interceptor is (who, beh)
 func (c caseT) chainWith(who string, beh int) []chainEl {
 	var ch []chainEl
-	for _, el := range []chainEl{{who, beh}, {"D1", c.D1}, {"D2", c.D2}} {
+	for _, el := range []chainEl{{who: who, beh: beh, mod: c.TM}, {who: "D1", beh: c.D1, mod: c.D1M}, {who: "D2", beh: c.D2, mod: c.D2M}} {
 		if el.beh != bNil {
 			ch = append(ch, el)
 		}
 	}
 	return ch
+}
+
+// ctxMod: does this chain element hand a derived context onward?
+func ctxMod(kind string, el chainEl) bool {
+	if !onwardBeh(el.beh) {
+		return false
+	}
+	if kind == "stream" {
+		return el.mod&mReq != 0
+	}
+	return el.mod&mCtx != 0
 }
 
 // expected (reference model): the log and what the caller must see
@@ -395,24 +554,51 @@ func expect(c caseT, ch []chainEl, method string) expectation {
 		}
 		who := ch[i].who
 		switch ch[i].beh {
-		case bPass:
-			x := ev(i + 1)
-			x.log = append([]string{who}, x.log...)
-			return x
 		case bShort:
 			return expectation{log: []string{who}, resp: "short:" + who, msgs: []string{"short:" + who}}
 		case bFail:
 			return expectation{log: []string{who}, code: codes.PermissionDenied, msg: "fail:" + who}
-		default: // rewrite
-			x := ev(i + 1)
-			x.log = append([]string{who}, x.log...)
+		}
+		x := ev(i + 1)
+		x.log = append([]string{who}, x.log...)
+		if c.Kind == "stream" && ch[i].mod&mReq != 0 {
+			// everything sent further down went through this interceptor's wrapper
+			tagged := make([]string, len(x.msgs))
+			for k, m := range x.msgs {
+				tagged[k] = m + "+" + who
+			}
+			x.msgs = tagged
+		}
+		if ch[i].late {
+			// returned before anything further down ran
+			return expectation{log: x.log, code: codes.DeadlineExceeded, msg: "late:" + who}
+		}
+		switch ch[i].beh {
+		case bRewrite:
 			if c.Kind == "unary" {
 				return expectation{log: x.log, resp: "rw:" + who}
 			}
 			return expectation{log: x.log, msgs: x.msgs, code: codes.Aborted, msg: "rw:" + who}
+		case bRewriteErr:
+			if c.Kind == "unary" {
+				return expectation{log: x.log, code: codes.Aborted, msg: "rwerr:" + who}
+			}
+			return expectation{log: x.log, msgs: x.msgs}
 		}
+		return x // pass
 	}
 	return ev(0)
+}
+
+// expectedHandlerRequest: what the handler must read when it is reached: the value sent, with the
+// suffix of every interceptor that replaces the request / wraps the stream, outermost first.
+func expectedHandlerRequest(ch []chainEl, sent string) string {
+	for _, el := range ch {
+		if onwardBeh(el.beh) && el.mod&mReq != 0 {
+			sent += "+" + el.who
+		}
+	}
+	return sent
 }
 
 func whos(es []*entry) []string {
@@ -489,21 +675,23 @@ var current atomic.Value
 
 var baseURL, _ = url.Parse("http://example.test/")
 
-// runCase builds the configuration on the real library and calls every method of c.Kind.
-func runCase(c caseT, verbose bool) (probs []problem, observed string) {
-	atomic.AddInt64(&progress, 1)
-	current.Store(c.String())
-	add := func(clause, sub, what string) { probs = append(probs, problem{clause, sub, what}) }
-	defer func() {
-		if r := recover(); r != nil {
-			add("panic", "", fmt.Sprintf("library code panicked: %v", r))
-		}
-	}()
+// built is a configuration set up on the real library
+type built struct {
+	srv     *impl
+	d0      *grpc.ServiceDesc
+	snap0   string
+	targets []*target
+	final   *grpc.ServiceDesc // nil when the decorated description is not observable (WithInterceptor straight onto a transport)
+	shared  bool
+}
 
-	l := &clog{}
-	srv := &impl{1}
-	d0 := makeDesc(c, l)
-	snap0 := snapshot(d0)
+// build sets the configuration of c up: description, carrier(s) with transport-level interceptors, decoration.
+func build(c caseT, l *clog, add func(clause, sub, what string)) *built {
+	b := &built{srv: &impl{1}}
+	srv := b.srv
+	b.d0 = makeDesc(c, l)
+	d0 := b.d0
+	b.snap0 = snapshot(d0)
 
 	var outU, inU grpc.UnaryServerInterceptor
 	var outS, inS grpc.StreamServerInterceptor
@@ -514,20 +702,20 @@ func runCase(c caseT, verbose bool) (probs []problem, observed string) {
 		return bNil
 	}
 	if c.Kind == "unary" {
-		outU, inU = mkUnary(l, "D1", c.D1), mkUnary(l, "D2", c.D2)
-		outS, inS = mkStream(l, "xD1", other(c.OD1)), mkStream(l, "xD2", other(c.OD2))
+		outU, inU = mkUnary(l, "D1", c.D1, c.D1M), mkUnary(l, "D2", c.D2, c.D2M)
+		outS, inS = mkStream(l, "xD1", other(c.OD1), 0), mkStream(l, "xD2", other(c.OD2), 0)
 	} else {
-		outS, inS = mkStream(l, "D1", c.D1), mkStream(l, "D2", c.D2)
-		outU, inU = mkUnary(l, "xD1", other(c.OD1)), mkUnary(l, "xD2", other(c.OD2))
+		outS, inS = mkStream(l, "D1", c.D1, c.D1M), mkStream(l, "D2", c.D2, c.D2M)
+		outU, inU = mkUnary(l, "xD1", other(c.OD1), 0), mkUnary(l, "xD2", other(c.OD2), 0)
 	}
 
 	// the carrier(s), each with its transport-level interceptors
 	mkTarget := func(who string, beh int) *target {
 		t := &target{who: who, beh: beh}
 		if c.Kind == "unary" {
-			t.tU, t.tS = mkUnary(l, who, beh), mkStream(l, "xT", other(c.OT))
+			t.tU, t.tS = mkUnary(l, who, beh, c.TM), mkStream(l, "xT", other(c.OT), 0)
 		} else {
-			t.tS, t.tU = mkStream(l, who, beh), mkUnary(l, "xT", other(c.OT))
+			t.tS, t.tU = mkStream(l, who, beh, c.TM), mkUnary(l, "xT", other(c.OT), 0)
 		}
 		switch c.Carrier {
 		case "direct":
@@ -555,13 +743,12 @@ func runCase(c caseT, verbose bool) (probs []problem, observed string) {
 		}
 		return t
 	}
-	var targets []*target
 	hm := grpchan.HandlerMap{}
 	var registry grpc.ServiceRegistrar = hm // direct carrier and sharing cases decorate around a HandlerMap
-	shared := len(c.Seq) > 0
-	if !shared {
+	b.shared = len(c.Seq) > 0
+	if !b.shared {
 		t := mkTarget("T", c.T)
-		targets = []*target{t}
+		b.targets = []*target{t}
 		if t.reg != nil {
 			registry = t.reg
 		}
@@ -571,13 +758,12 @@ func runCase(c caseT, verbose bool) (probs []problem, observed string) {
 			if s == 0 {
 				beh = bNil
 			}
-			targets = append(targets, mkTarget(seqNames[s], beh))
+			b.targets = append(b.targets, mkTarget(seqNames[s], beh))
 		}
 	}
-	viaMap := c.Carrier == "direct" || shared
+	viaMap := c.Carrier == "direct" || b.shared
 
 	// decoration
-	var final *grpc.ServiceDesc
 	if c.Form == "IS" {
 		dec := d0
 		if c.Depth == 2 {
@@ -592,8 +778,8 @@ func runCase(c caseT, verbose bool) (probs []problem, observed string) {
 		if outU == nil && outS == nil && dec != before {
 			add("nil-nil-not-same", "InterceptServer", "InterceptServer(desc, nil, nil) returned a different descriptor")
 		}
-		final = dec
-		registry.RegisterService(final, srv)
+		b.final = dec
+		registry.RegisterService(b.final, srv)
 	} else {
 		r := grpchan.WithInterceptor(registry, outU, outS)
 		if outU == nil && outS == nil && !sameRegistrar(r, registry) {
@@ -609,24 +795,219 @@ func runCase(c caseT, verbose bool) (probs []problem, observed string) {
 		r.RegisterService(d0, srv)
 		if viaMap {
 			var h interface{}
-			final, h = hm.QueryService(svcName)
-			if final == nil || h != srv {
-				add("registration-lost", "", fmt.Sprintf("after RegisterService through WithInterceptor the registry has (%v, %v)", final, h))
-				return
+			b.final, h = hm.QueryService(svcName)
+			if b.final == nil || h != srv {
+				add("registration-lost", "", fmt.Sprintf("after RegisterService through WithInterceptor the registry has (%v, %v)", b.final, h))
+				return nil
 			}
 		}
 	}
-	if shared {
+	if b.shared {
 		// contribute the ONE decorated registration to every carrier
-		for _, t := range targets {
+		for _, t := range b.targets {
 			if t.reg != nil {
 				hm.ForEach(t.reg.RegisterService)
 			}
 		}
 	}
-	if final != nil && shapeOf(final) != shapeOf(d0) {
-		add("decorated-shape", "", fmt.Sprintf("decorated descriptor is %q, original %q", shapeOf(final), shapeOf(d0)))
+	if b.final != nil && shapeOf(b.final) != shapeOf(d0) {
+		add("decorated-shape", "", fmt.Sprintf("decorated descriptor is %q, original %q", shapeOf(b.final), shapeOf(d0)))
 	}
+	return b
+}
+
+// checkInputUntouched: the input description must be untouched, structurally and behaviourally
+// (calling its handlers directly runs no interceptor).
+func checkInputUntouched(b *built, l *clog, add func(clause, sub, what string)) {
+	d0, srv := b.d0, b.srv
+	if s := snapshot(d0); s != b.snap0 {
+		add("input-desc-modified", "structure", fmt.Sprintf("input ServiceDesc changed: before %q after %q", b.snap0, s))
+	}
+	for i := range d0.Methods {
+		name := d0.Methods[i].MethodName
+		l.take()
+		_, _ = d0.Methods[i].Handler(srv, context.Background(), func(m interface{}) error { m.(*wrapperspb.StringValue).Value = "req:" + name; return nil }, nil)
+		es := l.take()
+		if len(es) != 1 || es[0].who != "H" || es[0].method != name {
+			add("input-desc-modified", "unary-handler", fmt.Sprintf("after decoration, the ORIGINAL descriptor's handler for %s logs %v (method %s)", name, whos(es), methodOf(es)))
+		}
+	}
+	for i := range d0.Streams {
+		name := d0.Streams[i].StreamName
+		l.take()
+		_ = d0.Streams[i].Handler(srv, &fakeStream{ctx: context.Background(), in: []*wrapperspb.StringValue{wrapperspb.String("req:" + name)}})
+		es := l.take()
+		if len(es) != 1 || es[0].who != "H" || es[0].method != name {
+			add("input-desc-modified", "stream-handler", fmt.Sprintf("after decoration, the ORIGINAL descriptor's handler for %s logs %v (method %s)", name, whos(es), methodOf(es)))
+		}
+	}
+}
+
+// callSpec is one RPC as the oracle needs to know it
+type callSpec struct {
+	c       caseT
+	carrier string
+	method  string
+	full    string
+	cs, ss  bool // the registered stream flags
+	css     bool // the client opened the stream as server-streaming
+	sub     string
+	relaxed bool // dead context on a transport: what the client sees and what the handler can still read is the transport's business (C04), not this property's
+	sent    string
+	chain   []chainEl
+	srv     interface{}
+}
+
+// judge compares the event log and the result of one RPC with the reference model.
+func judge(k callSpec, es []*entry, res callResult, add func(clause, sub, what string)) {
+	c, sub, full, method := k.c, k.sub, k.full, k.method
+	want := expect(c, k.chain, method)
+	got := whos(es)
+	if res.panicked != nil {
+		add("panic", sub, fmt.Sprintf("call %s panicked: %v", full, res.panicked))
+		return
+	}
+	for _, e := range es {
+		if e.panicked != nil {
+			add("panic", sub, fmt.Sprintf("call %s: the onward call of %s panicked: %v", full, e.who, e.panicked))
+			return
+		}
+	}
+	if cl := classifyLog(got, want.log); cl != "" {
+		add(cl, sub, fmt.Sprintf("call %s: event log %v, expected %v", full, got, want.log))
+		return
+	}
+	late := false
+	for _, el := range k.chain {
+		late = late || el.late
+	}
+	// per-event checks; es[j] is the event of k.chain[j], the handler's event comes last
+	for i, e := range es {
+		if e.who == "H" {
+			if e.method != method {
+				add("wrong-method-handler", sub, fmt.Sprintf("call %s ran the handler of %s", full, e.method))
+			}
+			if e.srv != k.srv {
+				add("handler-srv", sub, fmt.Sprintf("call %s: handler got srv %v, registered %v", full, e.srv, k.srv))
+			}
+			// (a stream handler that runs after its RPC has been completed on a transport may read anything)
+			if wantReq := expectedHandlerRequest(k.chain, k.sent); e.reqValue != wantReq && !k.relaxed && !(late && c.Kind == "stream" && k.carrier != "direct") {
+				add("request-value", sub, fmt.Sprintf("call %s: handler read request %q, expected %q (sent %q)", full, e.reqValue, wantReq, k.sent))
+			}
+		} else {
+			if e.fullMethod != full {
+				add("full-method", e.who+","+sub, fmt.Sprintf("call %s: interceptor %s was told FullMethod %q", full, e.who, e.fullMethod))
+			}
+			if c.Kind == "stream" && (e.cs != k.cs || e.ss != k.ss) {
+				add("stream-flags", e.who+","+sub, fmt.Sprintf("call %s (client=%v server=%v): interceptor %s was told IsClientStream=%v IsServerStream=%v", full, k.cs, k.ss, e.who, e.cs, e.ss))
+			}
+			if e.after && e.fullMethodAfter != full {
+				add("full-method", e.who+"@return,"+sub, fmt.Sprintf("call %s: when its onward call had come back, the info given to interceptor %s said FullMethod %q", full, e.who, e.fullMethodAfter))
+			}
+			if e.after && c.Kind == "stream" && (e.csAfter != k.cs || e.ssAfter != k.ss) {
+				add("stream-flags", e.who+"@return,"+sub, fmt.Sprintf("call %s (client=%v server=%v): when its onward call had come back, the info given to interceptor %s said IsClientStream=%v IsServerStream=%v", full, k.cs, k.ss, e.who, e.csAfter, e.ssAfter))
+			}
+		}
+		// what the previous layer handed onward is what this layer is given
+		if i > 0 {
+			prev := es[i-1]
+			if c.Kind == "unary" {
+				if e.req != prev.reqOut {
+					add("request-identity", handOff(c.Kind, k.chain, i-1, e.who)+","+sub, fmt.Sprintf("call %s: %s was given the request %s, but %s handed %s onward", full, e.who, describe(e.req), prev.who, describe(prev.reqOut)))
+				}
+			} else if e.stream != prev.streamOut {
+				add("stream-identity", handOff(c.Kind, k.chain, i-1, e.who)+","+sub, fmt.Sprintf("call %s: %s was given the stream %s, but %s handed %s onward", full, e.who, describe(e.stream), prev.who, describe(prev.streamOut)))
+			}
+		}
+		for j := 0; j < i && j < len(k.chain); j++ {
+			if up := k.chain[j]; ctxMod(c.Kind, up) {
+				if e.ctx == nil || e.ctx.Value(ctxKey{up.who}) != "ctx:"+up.who {
+					add("context-passthrough", handOff(c.Kind, k.chain, j, e.who)+","+sub, fmt.Sprintf("call %s: the context given to %s lacks the value that %s put into the context it handed onward", full, e.who, up.who))
+				}
+			}
+		}
+		if e.called && i+1 < len(es) {
+			nx := es[i+1]
+			if e.gotResp != nx.retResp || e.gotErr != nx.retErr {
+				add("result-passthrough", sub, fmt.Sprintf("call %s: %s got (%v, %v) from calling onward but %s returned (%v, %v)", full, e.who, e.gotResp, e.gotErr, nx.who, nx.retResp, nx.retErr))
+			}
+		}
+	}
+	// what the caller sees
+	if k.carrier == "direct" {
+		top := es[0]
+		if c.Kind == "unary" && res.resp != top.retResp {
+			add("caller-result", sub, fmt.Sprintf("call %s: caller got response %v, %s returned %v", full, res.resp, top.who, top.retResp))
+		}
+		if res.err != top.retErr {
+			add("caller-result", sub, fmt.Sprintf("call %s: caller got error %v, %s returned %v", full, res.err, top.who, top.retErr))
+		}
+		if c.Kind == "stream" && !reflect.DeepEqual(res.msgs, want.msgs) && !(len(res.msgs) == 0 && len(want.msgs) == 0) {
+			add("caller-result", sub, fmt.Sprintf("call %s: messages sent %v, expected %v", full, res.msgs, want.msgs))
+		}
+	} else if !k.relaxed {
+		st, _ := status.FromError(res.err)
+		if res.err == io.EOF {
+			st = status.New(codes.OK, "")
+		}
+		if c.Kind == "stream" && want.code == codes.OK && len(want.msgs) == 0 && !k.css {
+			// a stream that ends well without any message, opened by the client as single-response: what
+			// the client reports for that is the transport's business, not this property's
+		} else if st.Code() != want.code || (want.code != codes.OK && st.Message() != want.msg) {
+			add("client-status", sub, fmt.Sprintf("call %s: client got %v, expected code=%v msg=%q", full, res.err, want.code, want.msg))
+		} else if want.code == codes.OK {
+			if c.Kind == "unary" && res.respVal != want.resp {
+				add("client-response", sub, fmt.Sprintf("call %s: client got response %q, expected %q", full, res.respVal, want.resp))
+			}
+			if c.Kind == "stream" && !reflect.DeepEqual(res.msgs, want.msgs) && !(len(res.msgs) == 0 && len(want.msgs) == 0) {
+				add("client-response", sub, fmt.Sprintf("call %s: client got messages %v, expected %v", full, res.msgs, want.msgs))
+			}
+		} else if c.Kind == "stream" && k.css && !reflect.DeepEqual(res.msgs, want.msgs) && !(len(res.msgs) == 0 && len(want.msgs) == 0) {
+			add("client-response", sub, fmt.Sprintf("call %s: client got messages %v before the error, expected %v", full, res.msgs, want.msgs))
+		}
+	}
+}
+
+// handOff names a hand-over for a fingerprint: the layer that handed something onward (with its behaviour) and the layer that received
+func handOff(kind string, ch []chainEl, from int, to string) string {
+	if from < 0 || from >= len(ch) {
+		return "?>" + to
+	}
+	return fmt.Sprintf("%s=%s>%s", ch[from].who, behStr(kind, ch[from].beh, ch[from].mod), to)
+}
+
+func describe(v interface{}) string {
+	switch x := v.(type) {
+	case nil:
+		return "<nil>"
+	case *wrapperspb.StringValue:
+		return fmt.Sprintf("%q", x.GetValue())
+	case *wrapStream:
+		return "wrapper(" + x.who + ")"
+	}
+	return fmt.Sprintf("%T", v)
+}
+
+// runCase builds the configuration on the real library and calls every method of c.Kind.
+func runCase(c caseT, verbose bool) (probs []problem, observed string) {
+	if c.Ov != nil {
+		return runOverlap(c, verbose)
+	}
+	atomic.AddInt64(&progress, 1)
+	current.Store(c.String())
+	add := func(clause, sub, what string) { probs = append(probs, problem{clause, sub, what}) }
+	defer func() {
+		if r := recover(); r != nil {
+			add("panic", "", fmt.Sprintf("library code panicked: %v", r))
+		}
+	}()
+
+	l := &clog{}
+	b := build(c, l, add)
+	if b == nil {
+		return
+	}
+	srv, final, targets, shared := b.srv, b.final, b.targets, b.shared
 
 	// the calls
 	n := c.U
@@ -660,7 +1041,7 @@ func runCase(c caseT, verbose bool) (probs []problem, observed string) {
 				ccs, css = (c.CF-1)&1 != 0, (c.CF-1)&2 != 0
 				sub += fmt.Sprintf(",client-cs=%v,client-ss=%v", ccs, css)
 			}
-			want := expect(c, c.chainWith(t.who, t.beh), method)
+			chain := c.chainWith(t.who, t.beh)
 			ctx, cancel := context.WithCancel(context.Background())
 			var done chan struct{}
 			l.beforeOnward, l.onReturn = nil, nil
@@ -683,128 +1064,32 @@ func runCase(c caseT, verbose bool) (probs []problem, observed string) {
 				}
 			}
 			l.take()
-			res := call(c, ctx, method, full, ccs, css, final, srv, t.tU, t.tS, t.ipc, t.hs)
+			res := call(c, ctx, method, full, "req:"+method, 0, ccs, css, final, srv, t)
 			if done != nil && c.Carrier != "direct" {
 				<-done // the server side runs in its own goroutine: wait until the outermost participant has returned
 			}
 			cancel()
 			l.beforeOnward, l.onReturn = nil, nil
 			es := l.take()
-			// with a dead context on a transport, what the client sees and what the handler can still read is the transport's business (C04), not this property's
-			relaxed := c.Ctx != 0 && c.Carrier != "direct"
-			got := whos(es)
-			o := fmt.Sprintf("%s"+map[bool]string{true: "@" + t.who, false: ""}[shared]+": log=%v result=(%q %v err=%v)", method, got, res.respVal, res.msgs, res.err)
+			o := fmt.Sprintf("%s"+map[bool]string{true: "@" + t.who, false: ""}[shared]+": log=%v result=(%q %v err=%v)", method, whos(es), res.respVal, res.msgs, res.err)
+			if isPassthrough(c) {
+				for _, e := range es {
+					if e.who == "H" {
+						o += fmt.Sprintf(" handler-read=%q", e.reqValue)
+					}
+				}
+			}
 			obs = append(obs, o)
 			if verbose {
-				fmt.Println("  " + o + fmt.Sprintf("   expected log=%v", want.log))
+				fmt.Println("  " + o + fmt.Sprintf("   expected log=%v", expect(c, chain, method).log))
 			}
-			if res.panicked != nil {
-				add("panic", sub, fmt.Sprintf("call %s panicked: %v", full, res.panicked))
-				continue
-			}
-			if cl := classifyLog(got, want.log); cl != "" {
-				add(cl, sub, fmt.Sprintf("call %s: event log %v, expected %v", full, got, want.log))
-				continue
-			}
-			// per-event checks
-			var firstReq interface{}
-			var firstStream grpc.ServerStream
-			for k, e := range es {
-				if e.who == "H" {
-					if e.method != method {
-						add("wrong-method-handler", sub, fmt.Sprintf("call %s ran the handler of %s", full, e.method))
-					}
-					if e.srv != interface{}(srv) {
-						add("handler-srv", sub, fmt.Sprintf("call %s: handler got srv %v, registered %v", full, e.srv, srv))
-					}
-					if e.reqValue != "req:"+method && !relaxed {
-						add("request-value", sub, fmt.Sprintf("call %s: handler read request %q, sent %q", full, e.reqValue, "req:"+method))
-					}
-				} else {
-					if e.fullMethod != full {
-						add("full-method", e.who+","+sub, fmt.Sprintf("call %s: interceptor %s was told FullMethod %q", full, e.who, e.fullMethod))
-					}
-					if c.Kind == "stream" && (e.cs != cs || e.ss != ss) {
-						add("stream-flags", e.who+","+sub, fmt.Sprintf("call %s (client=%v server=%v): interceptor %s was told IsClientStream=%v IsServerStream=%v", full, cs, ss, e.who, e.cs, e.ss))
-					}
-				}
-				if c.Kind == "unary" {
-					if k == 0 {
-						firstReq = e.req
-					} else if e.req != firstReq {
-						add("request-identity", sub, fmt.Sprintf("call %s: %s saw a different request object than %s", full, e.who, es[0].who))
-					}
-				} else {
-					if k == 0 {
-						firstStream = e.stream
-					} else if e.stream != firstStream {
-						add("stream-identity", sub, fmt.Sprintf("call %s: %s saw a different stream object than %s", full, e.who, es[0].who))
-					}
-				}
-				if e.called && k+1 < len(es) {
-					nx := es[k+1]
-					if e.gotResp != nx.retResp || e.gotErr != nx.retErr {
-						add("result-passthrough", sub, fmt.Sprintf("call %s: %s got (%v, %v) from calling onward but %s returned (%v, %v)", full, e.who, e.gotResp, e.gotErr, nx.who, nx.retResp, nx.retErr))
-					}
-				}
-			}
-			// what the caller sees
-			if c.Carrier == "direct" {
-				top := es[0]
-				if c.Kind == "unary" && res.resp != top.retResp {
-					add("caller-result", sub, fmt.Sprintf("call %s: caller got response %v, %s returned %v", full, res.resp, top.who, top.retResp))
-				}
-				if res.err != top.retErr {
-					add("caller-result", sub, fmt.Sprintf("call %s: caller got error %v, %s returned %v", full, res.err, top.who, top.retErr))
-				}
-				if c.Kind == "stream" && !reflect.DeepEqual(res.msgs, want.msgs) && !(len(res.msgs) == 0 && len(want.msgs) == 0) {
-					add("caller-result", sub, fmt.Sprintf("call %s: messages sent %v, expected %v", full, res.msgs, want.msgs))
-				}
-			} else if !relaxed {
-				st, _ := status.FromError(res.err)
-				if res.err == io.EOF {
-					st = status.New(codes.OK, "")
-				}
-				if st.Code() != want.code || (want.code != codes.OK && st.Message() != want.msg) {
-					add("client-status", sub, fmt.Sprintf("call %s: client got %v, expected code=%v msg=%q", full, res.err, want.code, want.msg))
-				} else if want.code == codes.OK {
-					if c.Kind == "unary" && res.respVal != want.resp {
-						add("client-response", sub, fmt.Sprintf("call %s: client got response %q, expected %q", full, res.respVal, want.resp))
-					}
-					if c.Kind == "stream" && !reflect.DeepEqual(res.msgs, want.msgs) {
-						add("client-response", sub, fmt.Sprintf("call %s: client got messages %v, expected %v", full, res.msgs, want.msgs))
-					}
-				} else if c.Kind == "stream" && css && !reflect.DeepEqual(res.msgs, want.msgs) && !(len(res.msgs) == 0 && len(want.msgs) == 0) {
-					add("client-response", sub, fmt.Sprintf("call %s: client got messages %v before the error, expected %v", full, res.msgs, want.msgs))
-				}
-			}
+			judge(callSpec{c: c, carrier: c.Carrier, method: method, full: full, cs: cs, ss: ss, css: css, sub: sub,
+				relaxed: c.Ctx != 0 && c.Carrier != "direct", sent: "req:" + method, chain: chain, srv: srv}, es, res, add)
 		}
 
 	}
 
-	// the input description must be untouched: structurally ...
-	if s := snapshot(d0); s != snap0 {
-		add("input-desc-modified", "structure", fmt.Sprintf("input ServiceDesc changed: before %q after %q", snap0, s))
-	}
-	// ... and behaviourally: calling its handlers directly runs no interceptor
-	for i := range d0.Methods {
-		name := d0.Methods[i].MethodName
-		l.take()
-		_, _ = d0.Methods[i].Handler(srv, context.Background(), func(m interface{}) error { m.(*wrapperspb.StringValue).Value = "req:" + name; return nil }, nil)
-		es := l.take()
-		if len(es) != 1 || es[0].who != "H" || es[0].method != name {
-			add("input-desc-modified", "unary-handler", fmt.Sprintf("after decoration, the ORIGINAL descriptor's handler for %s logs %v (method %s)", name, whos(es), methodOf(es)))
-		}
-	}
-	for i := range d0.Streams {
-		name := d0.Streams[i].StreamName
-		l.take()
-		_ = d0.Streams[i].Handler(srv, &fakeStream{ctx: context.Background(), in: []*wrapperspb.StringValue{wrapperspb.String("req:" + name)}})
-		es := l.take()
-		if len(es) != 1 || es[0].who != "H" || es[0].method != name {
-			add("input-desc-modified", "stream-handler", fmt.Sprintf("after decoration, the ORIGINAL descriptor's handler for %s logs %v (method %s)", name, whos(es), methodOf(es)))
-		}
-	}
+	checkInputUntouched(b, l, add)
 	return probs, strings.Join(obs, "; ")
 }
 
@@ -817,18 +1102,26 @@ func methodOf(es []*entry) string {
 	return "-"
 }
 
-func call(c caseT, ctx context.Context, method, full string, cs, ss bool, final *grpc.ServiceDesc, srv interface{}, tU grpc.UnaryServerInterceptor, tS grpc.StreamServerInterceptor, ipc *inprocgrpc.Channel, hs *httpgrpc.Server) (res callResult) {
+// call performs one RPC. rpc > 0 (overlap cases) labels it in the metadata so that stream
+// interceptors and handlers can tell which RPC they are working for.
+func call(c caseT, ctx context.Context, method, full, reqVal string, rpc int, cs, ss bool, final *grpc.ServiceDesc, srv interface{}, t *target) (res callResult) {
 	defer func() {
 		if r := recover(); r != nil {
 			res.panicked = r
 		}
 	}()
-	reqVal := "req:" + method
+	if rpc > 0 {
+		if c.Carrier == "direct" {
+			ctx = metadata.NewIncomingContext(ctx, metadata.Pairs("rpc", fmt.Sprint(rpc)))
+		} else {
+			ctx = metadata.AppendToOutgoingContext(ctx, "rpc", fmt.Sprint(rpc))
+		}
+	}
 	if c.Carrier == "direct" {
 		if c.Kind == "unary" {
 			for i := range final.Methods {
 				if final.Methods[i].MethodName == method {
-					resp, err := final.Methods[i].Handler(srv, ctx, func(m interface{}) error { m.(*wrapperspb.StringValue).Value = reqVal; return nil }, tU)
+					resp, err := final.Methods[i].Handler(srv, ctx, func(m interface{}) error { m.(*wrapperspb.StringValue).Value = reqVal; return nil }, t.tU)
 					res.resp, res.err = resp, err
 					if sv, ok := resp.(*wrapperspb.StringValue); ok && sv != nil {
 						res.respVal = sv.Value
@@ -843,12 +1136,12 @@ func call(c caseT, ctx context.Context, method, full string, cs, ss bool, final 
 				fs := &fakeStream{ctx: ctx, in: []*wrapperspb.StringValue{wrapperspb.String(reqVal)}}
 				sd := &final.Streams[i]
 				// what the transports do
-				if tS != nil {
-					res.err = tS(srv, fs, &grpc.StreamServerInfo{FullMethod: full, IsClientStream: sd.ClientStreams, IsServerStream: sd.ServerStreams}, sd.Handler)
+				if t.tS != nil {
+					res.err = t.tS(srv, fs, &grpc.StreamServerInfo{FullMethod: full, IsClientStream: sd.ClientStreams, IsServerStream: sd.ServerStreams}, sd.Handler)
 				} else {
 					res.err = sd.Handler(srv, fs)
 				}
-				res.msgs = fs.sent
+				res.msgs = fs.snapshot()
 				return
 			}
 		}
@@ -856,9 +1149,9 @@ func call(c caseT, ctx context.Context, method, full string, cs, ss bool, final 
 	}
 	var ch grpc.ClientConnInterface
 	if c.Carrier == "inproc" {
-		ch = ipc
+		ch = t.ipc
 	} else {
-		ch = &httpgrpc.Channel{Transport: common.HandlerRT(hs), BaseURL: baseURL}
+		ch = &httpgrpc.Channel{Transport: common.HandlerRT(t.hs), BaseURL: baseURL}
 	}
 	if c.Kind == "unary" {
 		var out wrapperspb.StringValue
@@ -959,6 +1252,18 @@ func enumerate(tier string, fn func(caseT)) {
 
 // fingerprint keeps, per clause, the parameters the clause can depend on.
 func fingerprint(c caseT, pr problem) string {
+	if c.Ov != nil {
+		// overlap cases: the clause, the RPC and its position among the methods (in pr.sub), who calls onward late and how, the chain
+		switch pr.clause {
+		case "input-desc-modified", "decorated-shape", "nil-nil-not-same", "registration-lost":
+		case "result-passthrough", "caller-result", "client-status", "client-response", "request-value", "panic":
+			return fmt.Sprintf("C16|%s|%s|%s|depth=%d|%s|overlap(X=%s,%s,%s)|herr=%v|%s|%s", c.Carrier, c.Form, c.Kind, c.Depth, c.chainStr(),
+				c.Ov.X, ovModeNames[c.Ov.Mode], ovOrderNames[c.Ov.Order], c.HErr, pr.sub, pr.clause)
+		default: // the event log, what interceptors were told, which handler ran: the handler's outcome cannot matter
+			return fmt.Sprintf("C16|%s|%s|%s|depth=%d|%s|overlap(X=%s,%s,%s)|%s|%s", c.Carrier, c.Form, c.Kind, c.Depth, c.chainStr(),
+				c.Ov.X, ovModeNames[c.Ov.Mode], ovOrderNames[c.Ov.Order], pr.sub, pr.clause)
+		}
+	}
 	setPat := fmt.Sprintf("own=%v/%v/%v,other=%v/%v/%v", c.T != 0, c.D1 != 0, c.D2 != 0, c.OT, c.OD1, c.OD2)
 	switch pr.clause {
 	case "nil-nil-not-same":
@@ -968,6 +1273,9 @@ func fingerprint(c caseT, pr problem) string {
 		return fmt.Sprintf("C16|%s|nil-nil-not-same", pr.sub)
 	case "input-desc-modified", "decorated-shape":
 		return fmt.Sprintf("C16|%s|%s|depth=%d|%s|%s|%s", c.Form, c.Kind, c.Depth, setPat, pr.sub, pr.clause)
+	case "request-identity", "stream-identity", "context-passthrough":
+		// pr.sub starts with the hand-over concerned (who handed what kind of thing onward to whom); the rest of the chain cannot matter
+		return fmt.Sprintf("C16|%s|%s|%s|depth=%d|%s|%s", c.Carrier, c.Form, c.Kind, c.Depth, pr.sub, pr.clause)
 	case "stream-flags", "full-method":
 		return fmt.Sprintf("C16|%s|%s|%s|depth=%d|%s|%s", c.Carrier, c.Form, c.Kind, c.Depth, pr.sub, pr.clause)
 	case "result-passthrough", "caller-result", "client-status", "client-response", "request-value", "panic":
@@ -1112,6 +1420,70 @@ func enumerateClientFlags(fn func(caseT)) {
 	}
 }
 
+// enumeratePassthrough: the PASS-THROUGH dimension. Every interceptor on the path takes every
+// behaviour of {absent (T and inner only), short-circuit, fail} + {pass, replace the response
+// (stream: the error), replace the error (stream: swallow it)} x what it hands onward
+// (unary: same request / modified clone x same context / derived context; stream: same
+// ServerStream / wrapper with a derived context that tags every message in both directions),
+// x carrier x form x handler outcome, on a few descriptor shapes. Combinations that the base
+// grammar already has (nothing replaced on the way in, no error replacement) are left out.
+func enumeratePassthrough(tier string, fn func(caseT)) {
+	type bm struct{ b, m int }
+	options := func(kind string, withNil bool) []bm {
+		var out []bm
+		if withNil {
+			out = append(out, bm{bNil, 0})
+		}
+		mods := []int{0, mReq, mCtx, mReq | mCtx}
+		if kind == "stream" {
+			mods = []int{0, mReq}
+		}
+		for _, b := range []int{bPass, bRewrite, bRewriteErr} {
+			for _, m := range mods {
+				out = append(out, bm{b, m})
+			}
+		}
+		return append(out, bm{bShort, 0}, bm{bFail, 0})
+	}
+	inBase := func(x bm) bool { return x.m == 0 && x.b != bRewriteErr }
+	shs := []shape{{1, nil}, {0, []int{3}}, {2, []int{1, 2}}}
+	if tier == "thorough" {
+		shs = shapes(false)
+	}
+	for _, sh := range shs {
+		for _, carrier := range []string{"direct", "inproc", "http"} {
+			for _, form := range []string{"IS", "WI"} {
+				for _, kind := range []string{"unary", "stream"} {
+					if (kind == "unary" && sh.U == 0) || (kind == "stream" && len(sh.Flags) == 0) {
+						continue
+					}
+					for _, t := range options(kind, true) {
+						for _, d1 := range options(kind, false) {
+							for _, d2 := range options(kind, true) {
+								if inBase(t) && inBase(d1) && inBase(d2) {
+									continue
+								}
+								depth := 1
+								if d2.b != bNil {
+									depth = 2
+								}
+								for _, herr := range []bool{false, true} {
+									fn(caseT{Carrier: carrier, Form: form, U: sh.U, Flags: sh.Flags, Depth: depth, Kind: kind,
+										T: t.b, TM: t.m, D1: d1.b, D1M: d1.m, D2: d2.b, D2M: d2.m, HErr: herr})
+								}
+							}
+						}
+					}
+				}
+			}
+		}
+	}
+}
+
+func isPassthrough(c caseT) bool {
+	return c.TM != 0 || c.D1M != 0 || c.D2M != 0 || c.T == bRewriteErr || c.D1 == bRewriteErr || c.D2 == bRewriteErr
+}
+
 func main() {
 	rep := vlib.NewReporter("C16")
 	go func() { // hang guard
@@ -1134,6 +1506,14 @@ func main() {
 			os.Exit(2)
 		}
 		fmt.Println("replay:", c.String())
+		if c.Ov != nil {
+			beginOverlapPhase() // one P, no garbage collection: see overlap.go
+			if _, obs1 := runCase(c, false); true {
+				if _, obs2 := runCase(c, false); obs1 != obs2 {
+					inconclusive("two runs of the overlap case observed different things:\n  %s\n  %s", obs1, obs2)
+				}
+			}
+		}
 		probs, _ := runCase(c, true)
 		for _, pr := range probs {
 			fmt.Printf("  %s[%s]: %s\n", pr.clause, pr.sub, pr.what)
@@ -1147,10 +1527,20 @@ func main() {
 
 	evals, calls := 0, 0
 	distinct := map[string]bool{}
-	var samples []interface{}
+	var samples, ptSamples, ovSamples []interface{}
 	suppressedFPs := map[string]bool{}
 	const maxReported = 100
-	sharedCases, ctxCases, cfCases := 0, 0, 0
+	sharedCases, ctxCases, cfCases, ptCases, ovCases, ovRuns := 0, 0, 0, 0, 0, 0
+	report := func(c caseT, probs []problem) {
+		for _, pr := range probs {
+			fp := fingerprint(c, pr)
+			if rep.Violations >= maxReported {
+				suppressedFPs[fp] = true
+				continue
+			}
+			rep.Violation(fp, pr.what+"   ["+c.String()+"]", c)
+		}
+	}
 	visit := func(c caseT) {
 		evals++
 		if len(c.Seq) > 0 {
@@ -1161,6 +1551,10 @@ func main() {
 		}
 		if c.CF != 0 {
 			cfCases++
+		}
+		pt := isPassthrough(c)
+		if pt {
+			ptCases++
 		}
 		probs, obs := runCase(c, false)
 		n := c.U
@@ -1177,37 +1571,81 @@ func main() {
 		if len(samples) < 8 && n > 0 && len(c.chain()) >= 2 && evals%7919 == 0 {
 			samples = append(samples, map[string]interface{}{"case": c, "observed": obs})
 		}
-		for _, pr := range probs {
-			fp := fingerprint(c, pr)
-			if rep.Violations >= maxReported {
-				suppressedFPs[fp] = true
-				continue
-			}
-			rep.Violation(fp, pr.what+"   ["+c.String()+"]", c)
+		if pt && len(ptSamples) < 4 && onwardBeh(c.T) && onwardBeh(c.D1) && onwardBeh(c.D2) && c.TM != 0 && c.D1M != 0 && ptCases%997 == 0 {
+			ptSamples = append(ptSamples, map[string]interface{}{"case": c, "observed": obs})
 		}
+		report(c, probs)
 	}
 	enumerate(rep.Tier, visit)
 	enumerateShared(rep.Tier, visit)
 	enumerateCtx(rep.Tier, visit)
 	enumerateClientFlags(visit)
+	enumeratePassthrough(rep.Tier, visit)
+
+	// the overlap phase: one P and no garbage collection while RPCs are in flight, every case run twice
+	ph := beginOverlapPhase()
+	const calRounds = 1000
+	cal := poolCalibration(calRounds)
+	if cal != calRounds {
+		inconclusive("sync.Pool handed back the object put last in only %d of %d rounds with GOMAXPROCS(1) and the collector off: reuse of recycled per-call state by an overlapping RPC would not be deterministic", cal, calRounds)
+	}
+	ovHeld, ovRepeatDiffer := 0, 0
+	enumerateOverlap(rep.Tier, func(c caseT) {
+		evals++
+		ovCases++
+		before := atomic.LoadInt64(&ovGateReached)
+		probs, obs := runCase(c, false)
+		held := atomic.LoadInt64(&ovGateReached) > before
+		probs2, obs2 := runCase(c, false)
+		ovRuns += 2
+		ph.tick()
+		if obs != obs2 || len(probs) != len(probs2) {
+			// the oracle never alarms on a correct run, so a violation seen in either run is a violation; but the case was not deterministic
+			ovRepeatDiffer++
+			if len(probs)+len(probs2) == 0 {
+				inconclusive("two runs of %s observed different things:\n  %s\n  %s", c.String(), obs, obs2)
+			}
+			fmt.Printf("NOTE: two runs of %s observed different things:\n  %s\n  %s\n", c.String(), obs, obs2)
+			report(c, probs2)
+		}
+		calls += 4
+		if held {
+			ovHeld++
+			distinct[c.String()] = true
+		}
+		if len(ovSamples) < 4 && held && c.Ov.M1 != c.Ov.M2 && len(c.chain()) >= 2 && ovCases%1699 == 0 {
+			ovSamples = append(ovSamples, map[string]interface{}{"case": c, "observed": obs})
+		}
+		report(c, probs)
+	})
+	ph.end()
+
 	suppressed := len(suppressedFPs)
 	if suppressed > 0 {
 		fmt.Printf("(%d further distinct fingerprints not reported individually after the first %d)\n", suppressed, maxReported)
 	}
 	os.Exit(rep.Finish("exploration", map[string]interface{}{
-		"evaluations":         evals,
-		"sharing_cases":       sharedCases,
-		"context_cases":       ctxCases,
-		"client_flag_cases":   cfCases,
-		"rpc_calls":           calls,
-		"distinct_nontrivial": len(distinct),
-		"rule":                "every configuration of: descriptor shape (0-2 unary x 0-2 streams with every flag pair) x carrier (direct call of the decorated descriptor / inprocgrpc.Channel / httpgrpc.Server via HandlerRT) x form (InterceptServer / WithInterceptor) x depth x kind called x behaviour {nil,pass,short-circuit,fail,rewrite} of the transport-level, outer and inner interceptor of that kind x nil/set of each interceptor of the other kind x handler ok/error; every method of the kind is called. Behaviours of other-kind interceptors are not varied because the oracle demands they are never invoked. In addition the SHARING cases: one decorated description (InterceptServer) or decorated HandlerMap (WithInterceptor), outer decoration behaviour {pass,short,fail,rewrite} x inner {none; quick: pass; thorough: all four} on 4 (quick) / 21 (thorough) shapes, is contributed through HandlerMap.ForEach/RegisterService to 2 or 3 in-process channels / HTTP servers, or its handler is called directly 2 or 3 times, with every sequence over {no transport interceptor, A, B} of length 2 and 3; every method of the kind is called on every carrier in turn, same oracle per call. CONTEXT cases: the RPC's context is already cancelled at dispatch (direct carrier) or is cancelled by the transport-level interceptor just before it calls onward (direct carrier and in-process channel, waiting for the server side to finish), all behaviours of T/outer/inner, same oracle on the event log and on identities (on the in-process channel the client-visible result is not judged in these cases). CLIENT-FLAG cases: on the in-process channel and the HTTP server the client opens the stream with a StreamDesc whose flags differ from the registered ones; interceptors must be told the registered flags. A configuration is non-trivial when at least one method is called and at least one interceptor is on its path; distinct by all parameters.",
-		"samples":             samples,
-		"exhaustive":          true,
-		"suppressed_reports":  suppressed,
+		"evaluations":                     evals,
+		"sharing_cases":                   sharedCases,
+		"context_cases":                   ctxCases,
+		"client_flag_cases":               cfCases,
+		"passthrough_cases":               ptCases,
+		"overlap_cases":                   ovCases,
+		"overlap_runs":                    ovRuns,
+		"overlap_cases_rpc1_held_at_gate": ovHeld,
+		"overlap_repeat_identical":        ovRepeatDiffer == 0,
+		"pool_reuse_calibration":          fmt.Sprintf("%d/%d", cal, calRounds),
+		"rpc_calls":                       calls,
+		"distinct_nontrivial":             len(distinct),
+		"rule":                            "every configuration of: descriptor shape (0-2 unary x 0-2 streams with every flag pair) x carrier (direct call of the decorated descriptor / inprocgrpc.Channel / httpgrpc.Server via HandlerRT) x form (InterceptServer / WithInterceptor) x depth x kind called x behaviour {nil,pass,short-circuit,fail,rewrite} of the transport-level, outer and inner interceptor of that kind x nil/set of each interceptor of the other kind x handler ok/error; every method of the kind is called. Behaviours of other-kind interceptors are not varied because the oracle demands they are never invoked. In addition the SHARING cases: one decorated description (InterceptServer) or decorated HandlerMap (WithInterceptor), outer decoration behaviour {pass,short,fail,rewrite} x inner {none; quick: pass; thorough: all four} on 4 (quick) / 21 (thorough) shapes, is contributed through HandlerMap.ForEach/RegisterService to 2 or 3 in-process channels / HTTP servers, or its handler is called directly 2 or 3 times, with every sequence over {no transport interceptor, A, B} of length 2 and 3; every method of the kind is called on every carrier in turn, same oracle per call. CONTEXT cases: the RPC's context is already cancelled at dispatch (direct carrier) or is cancelled by the transport-level interceptor just before it calls onward (direct carrier and in-process channel, waiting for the server side to finish), all behaviours of T/outer/inner, same oracle on the event log and on identities (on the in-process channel the client-visible result is not judged in these cases). CLIENT-FLAG cases: on the in-process channel and the HTTP server the client opens the stream with a StreamDesc whose flags differ from the registered ones; interceptors must be told the registered flags. PASS-THROUGH cases (swept around the base grammar on 3 (quick) / 21 (thorough) descriptor shapes, other-kind interceptors absent): transport-level {absent or set} x outer {set} x inner {absent or set} interceptor, each set one taking every behaviour of {short-circuit, fail} + {pass, replace the response (stream: the error), replace the error (unary: (nil, Aborted) whatever came back; stream: swallow it)} x what it hands onward (unary: the request received / a modified clone of it x the context received / a derived context carrying a value; stream: the ServerStream received / a wrapper with a derived context that suffixes every message in both directions), x carrier x form x handler ok/error, minus the combinations the base grammar has; the oracle demands that each layer (next interceptor, then handler) is given exactly the request / stream object the previous layer handed onward, sees the context values of every layer before it, that each layer gets back exactly what the next one returned, that the handler reads the value with the suffixes of all replacing layers in order, and that the caller / client sees the model's result. OVERLAP cases (2 (quick) / 5 (thorough) descriptor shapes): two RPCs on ONE decorated carrier; one interceptor X on the path (transport-level, outer or inner in turn; layers before X pass or rewrite or are absent, layers after X take every behaviour) makes its single onward call late: inline after a gate opens / from another goroutine that waits for the gate while X waits for it / from another goroutine after X has returned DeadlineExceeded itself; RPC 1 is held at X's gate (in the last mode: has completed for its caller), then RPC 2 to every method of the kind (the same one included) runs ungated to completion, or is held the same way and the gates are opened 2-then-1 or 1-then-2; x carrier x form x handler ok/error. All waiting is on channels. The oracle is the statement per RPC (events are attributed to an RPC by the request value / stream metadata the event was given): each interceptor once, told that RPC's FullMethod and flags, handler iff every interceptor called onward, the handler of that RPC's method, results passed through; an onward-calling interceptor that has not returned yet reads the info object it was given a second time when its onward call has come back (as logging interceptors do), and it must still say the same. The overlap phase runs with GOMAXPROCS(1) and garbage collection only between cases, so that a sync.Pool hands back what was put last (calibrated: pool_reuse_calibration) and reuse of recycled per-call state by the other RPC happens every time; every overlap case is run twice and both runs must observe the same (overlap_repeat_identical; a difference is printed, and aborts the run as inconclusive unless one of the two runs violated the statement, which is then reported). A configuration is non-trivial when at least one method is called and at least one interceptor is on its path (overlap: when RPC 1 really was held at X's gate, measured); distinct by all parameters.",
+		"samples":                         append(append(samples, ptSamples...), ovSamples...),
+		"exhaustive":                      true,
+		"suppressed_reports":              suppressed,
 	}, []string{
 		"original descriptors follow the contract of generated code (decode, then run the interceptor argument around the application method)",
 		"a panic in a server goroutine of the in-process channel would abort the checker (exit 2) instead of being reported",
 		"quick = nesting depth 1 on all 63 descriptor shapes + depth 2 on 21 shapes (0-2 unary x {no stream, one stream of each flag pair, [client-only, server-only], [bidi, neither]}); thorough = depths 1 and 2 on all 63 shapes",
+		"the pass-through and overlap dimensions are swept around base cases on a few descriptor shapes with the other-kind interceptors absent, not crossed with the sharing / context / client-flag dimensions nor with each other",
+		"overlap cases: determinism of what a late onward call finds rests on GOMAXPROCS(1) + no collection while RPCs are in flight (sync.Pool then returns the object put last; calibrated at the start of the phase) and is verified by running each case twice with identical observations; in the go-late mode on a transport the messages a stream handler reads or sends after its RPC was completed are not judged, only the event log, what interceptors were told and the handler's identity",
 	}))
 }
